@@ -199,10 +199,19 @@ def apply_effect(fd, e, args, workdir, tag):
             p = Path(workdir) / f'{tag}' / 'out'
             p.parent.mkdir(parents=True, exist_ok=True)
             fd.write(fmt, str(p), overwrite=True)
-        elif e == 'rotation':
-            fd.rotation(*args.get('v', [0., 0., 1., 0.5]))
-        elif e == 'translation':
-            fd.translation(*args.get('v', [1., 2., 3.]))
+        elif e in ('rotation', 'translation'):
+            if args.get('reset'):
+                # femio moves the nodes only of a mesh without variables (as its own tests do)
+                fd.nodal_data.reset()
+                fd.elemental_data.reset()
+            try:
+                if e == 'rotation':
+                    fd.rotation(*args.get('v', [0., 0., 1., 0.5]))
+                else:
+                    fd.translation(*args.get('v', [1., 2., 3.]))
+            finally:
+                if args.get('reset'):
+                    fd.nodal_data['NODE'] = fd.nodes     # as FEMData.__init__ does
         else:
             getattr(fd, e)(**args.get('kwargs', {}))
 
